@@ -379,10 +379,10 @@ def wide_arr(r, lens):
 
 def gen_c07(r):
     lens = rnd_lens(r, 7, 5)
-    if r.random() < 0.06:
+    if r.random() < 0.08:
         o = opts_for(r, "scan")
         o["hi"] = 0
-        return ["wreduce", "cumsum", wide_arr(r, lens)], o, False
+        return ["wreduce", r.choice(["cumsum", "sort", "sort", "unique"]), wide_arr(r, lens)], o, False
     name = r.choice(["cumsum", "acc_add", "acc_subtract", "acc_bitwise_xor", "sort", "unique", "unique_counts", "diff", "diff"])
     dt = r.choice(["i1", "u1", "i2", "u2", "i4", "i8", "b1", "f8", "f4", "u4"])
     arr = rnd_arr(r, dt, lens, finite_only=True, infs=0.3 if r.random() < 0.3 else 0.0)
